@@ -167,8 +167,12 @@ func (m *h2wMsg) expected(side string) string {
 	if m.trl != nil {
 		// encodeTrailers: the trailer fields, names lower-cased, nothing added
 	} else if side == "srv" {
-		// MStream.WriteHeader: no body => content-length 0; Date is present in the header set => not generated
-		fs = append(fs, [2]string{":status", strconv.Itoa(m.status)}, [2]string{"content-length", "0"}, [2]string{"date", "x"})
+		// MStream.WriteHeader: no body => content-length 0 for a response that may have a body ([c01h10] a 1xx / 204 response
+		// carries none, a 304 / the answer to HEAD keeps the upstream's - none here); Date is present in the header set => not generated
+		fs = append(fs, [2]string{":status", strconv.Itoa(m.status)}, [2]string{"date", "x"})
+		if !(m.status >= 100 && m.status <= 199) && m.status != 204 && m.status != 304 {
+			fs = append(fs, [2]string{"content-length", "0"})
+		}
 	} else {
 		fs = append(fs, [2]string{":authority", "peer"}, [2]string{":method", m.method}, [2]string{":path", m.path},
 			[2]string{":scheme", "http"}, [2]string{"user-agent", "h2w"})
